@@ -119,6 +119,7 @@ class BaseValidator(object):
             self._reset_checks()
 
         # Validate that number of fields.
+        self.location.set_cell(0)
         actual_item_count = len(row)
         if actual_item_count < self._expected_item_count:
             raise errors.DataError(
